@@ -54,6 +54,7 @@ type verifC06Snap struct {
 	nodes    map[string]bool
 	nodeIDs  map[string]string
 	inst     map[string]string // peer|node|id -> service name
+	connFor  map[string]string // peer|node|id -> service the instance is a connect endpoint of (native: itself, proxy: destination)
 	svcCount map[string]int    // peer|service name -> instances
 	nodeSvcs map[string]int    // peer|node -> instances
 	checks   map[string]string // peer|node|check -> serviceID \x00 rendering
@@ -65,7 +66,7 @@ type verifC06Snap struct {
 
 func verifC06TakeSnap(s *state.Store) *verifC06Snap {
 	sn := &verifC06Snap{kv: map[string]bool{}, nodes: map[string]bool{}, nodeIDs: map[string]string{}, inst: map[string]string{}, svcCount: map[string]int{},
-		nodeSvcs: map[string]int{}, checks: map[string]string{}, ces: map[string]bool{}, dests: map[string]bool{}, pqs: map[string]bool{}, links: map[string]bool{}}
+		connFor: map[string]string{}, nodeSvcs: map[string]int{}, checks: map[string]string{}, ces: map[string]bool{}, dests: map[string]bool{}, pqs: map[string]bool{}, links: map[string]bool{}}
 	_ = s.WalkAllTables(func(table string, item interface{}) bool {
 		switch table {
 		case "kvs":
@@ -78,6 +79,11 @@ func verifC06TakeSnap(s *state.Store) *verifC06Snap {
 			x := item.(*structs.ServiceNode)
 			sn.inst[x.PeerName+"|"+strings.ToLower(x.Node)+"|"+x.ServiceID] = x.ServiceName
 			sn.svcCount[x.PeerName+"|"+x.ServiceName]++
+			if x.ServiceKind == structs.ServiceKindConnectProxy {
+				sn.connFor[x.PeerName+"|"+strings.ToLower(x.Node)+"|"+x.ServiceID] = x.ServiceProxy.DestinationServiceName
+			} else if x.ServiceConnect.Native {
+				sn.connFor[x.PeerName+"|"+strings.ToLower(x.Node)+"|"+x.ServiceID] = x.ServiceName
+			}
 			sn.nodeSvcs[x.PeerName+"|"+strings.ToLower(x.Node)]++
 		case "checks":
 			c := item.(*structs.HealthCheck)
@@ -267,8 +273,22 @@ const (
 )
 
 // verifC06MovedChecks lists checks (peer|node|id) whose ServiceID differs between the two snapshots.
-func verifC06MovedChecks(b, a *verifC06Snap) [][3]string {
+func verifC06MovedChecks(b, a *verifC06Snap, op *vs.Op) [][3]string {
 	var out [][3]string
+	if op.Kind == vs.Txn {
+		// a transaction can move a check and remove it (or its new service) in the same step
+		for _, t := range op.P.Txn {
+			if t.Check == nil || (t.Check.Verb != api.CheckSet && t.Check.Verb != api.CheckCAS) {
+				continue
+			}
+			k := t.Check.Check.PeerName + "|" + strings.ToLower(t.Check.Check.Node) + "|" + string(t.Check.Check.CheckID)
+			if v, ok := b.checks[k]; ok {
+				if _, still := a.checks[k]; !still && v[:strings.Index(v, "\x00")] != t.Check.Check.ServiceID {
+					out = append(out, [3]string{strings.ToLower(t.Check.Check.Node), string(t.Check.Check.CheckID), v[:strings.Index(v, "\x00")]})
+				}
+			}
+		}
+	}
 	for k, v := range b.checks {
 		av, ok := a.checks[k]
 		if !ok {
@@ -294,7 +314,7 @@ func verifC06RootCause(q *verifC06Query, fk string, op *vs.Op, snapB, snapA *ver
 	// the NEW service's index is bumped (ensureCheckTxn); lookups that showed the check under the OLD service
 	// change without notice
 	if fk == "changed-index-not-advanced" || fk == "changed-not-woken" {
-		for _, mv := range verifC06MovedChecks(snapB, snapA) {
+		for _, mv := range verifC06MovedChecks(snapB, snapA, op) {
 			if strings.Contains(b.Res, `"CheckID":"`+mv[1]+`"`) && strings.Contains(strings.ToLower(b.Res), `"node":"`+mv[0]+`"`) &&
 				strings.Contains(b.Res, `"ServiceID":"`+mv[2]+`"`) {
 				return verifC06KeyCheckMoved
@@ -325,7 +345,10 @@ func verifC06RootCause(q *verifC06Query, fk string, op *vs.Op, snapB, snapA *ver
 			return verifC06KeyNodeIDGone
 		}
 	}
-	if (q.Fam == "ConnectServiceNodes" || q.Fam == "CheckConnectServiceNodes") && indexFail && fk != "unchanged-index-regress" {
+	// ServiceTopology embeds the catalog connect lookup of its service (serviceNodesTxn on the connect index) and
+	// inherits (7) with an unchanged result
+	if (q.Fam == "ConnectServiceNodes" || q.Fam == "CheckConnectServiceNodes" || q.Fam == "ServiceTopology") && indexFail &&
+		(fk != "unchanged-index-regress" || q.Fam == "ServiceTopology") {
 		peer := ""
 		if strings.Contains(q.Name, "peer=peerA") {
 			peer = "peerA"
@@ -336,38 +359,19 @@ func verifC06RootCause(q *verifC06Query, fk string, op *vs.Op, snapB, snapA *ver
 				extinct = append(extinct, strings.TrimPrefix(k, peer+"|"))
 			}
 		}
-		// (7) an instance left the connect set of the service WITHOUT being removed from the catalog (a connect-native
-		// instance registered again without the flag, a proxy registered again for another destination): only that
-		// instance's own service index is bumped, and it is no longer among the names of the result. An empty result
+		// (7) an instance left the connect set of the service while its service NAME lives on in the catalog, so that no
+		// extinction is recorded: a connect-native instance registered again without the flag, a proxy registered again
+		// for another destination, or a connect-native instance removed while plain instances of the name remain. Only
+		// that name's own index is bumped, and the name is no longer among the names of the result. An empty result
 		// then reports the last-extinction index, which did not move; a non-empty one the indexes of what remains
-		if len(extinct) == 0 {
-			ids := map[string]bool{}
-			for k := range snapB.inst {
-				if strings.HasPrefix(k, peer+"|") {
-					ids[k[strings.LastIndex(k, "|")+1:]] = true
-				}
-			}
-			count := func(mm map[string]string, id string) int {
-				n := 0
-				for k := range mm {
-					if strings.HasPrefix(k, peer+"|") && strings.HasSuffix(k, "|"+id) {
-						n++
-					}
-				}
-				return n
-			}
-			for id := range ids {
-				inRes := func(r string) int {
-					return strings.Count(r, `"ServiceID":"`+id+`"`) + strings.Count(r, `"ID":"`+id+`"`)
-				}
-				if inRes(a.Res) < inRes(b.Res) && count(snapA.inst, id) >= count(snapB.inst, id) {
-					return verifC06KeyConnLeft
-				}
+		for k, dest := range snapB.connFor {
+			if dest == q.Svc && strings.HasPrefix(k, peer+"|") && snapA.connFor[k] != dest && snapA.svcCount[peer+"|"+snapB.inst[k]] > 0 {
+				return verifC06KeyConnLeft
 			}
 		}
 		// (8) a service name of the connect result (a proxy name) lost its last instance while instances under other
 		// names (a gateway, another proxy name) remain: the extinction index is only consulted for EMPTY results
-		if a.Res != "{}" && q.Fam == "CheckConnectServiceNodes" {
+		if a.Res != "{}" && q.Fam == "CheckConnectServiceNodes" && fk != "unchanged-index-regress" {
 			for _, name := range extinct {
 				if strings.Contains(b.Res, `"Service":"`+name+`"`) && !strings.Contains(a.Res, `"Service":"`+name+`"`) {
 					return verifC06KeyConnExtinct
@@ -711,6 +715,8 @@ func verifC06Witnesses() map[string]verifC06Witness {
 	_ = destDefaults.Normalize()
 	native := plain("web")
 	native.Connect.Native = true
+	native3 := plain("web")
+	native3.Connect.Native = true
 	native2 := plain("web")
 	native2.Connect.Native = true
 	noID := reg(12, "n1", "", nil)
@@ -775,6 +781,15 @@ func verifC06Witnesses() map[string]verifC06Witness {
 		"witness-intention-destination-kind": {verifC06KeyIxnDestKind, []*vs.Op{
 			vs.NewConfig(vs.ConfigSet, 11, structs.ConfigEntryUpsert, ixn),
 			vs.NewConfig(vs.ConfigSet, 12, structs.ConfigEntryUpsert, destDefaults),
+		}},
+		// same root cause, the native instance is removed while a plain instance of the name remains:
+		// ConnectServiceNodes(web) [web-1@n2 native] index 14 -> [] index 12
+		"witness-connect-set-native-removed-plain-remains": {verifC06KeyConnLeft, []*vs.Op{
+			reg(11, "n1", "", plain("api")),
+			vs.NewDereg(vs.DeregService, 12, "n1", "api-1", ""),
+			reg(13, "n1", "", plain("web")),
+			reg(14, "n2", "", native3),
+			vs.NewDereg(vs.DeregService, 15, "n2", "web-1", ""),
 		}},
 		// CheckConnectServiceNodes(web): [web-proxy-1, term-gw-1] index 13 -> [term-gw-1] index 12
 		"witness-connect-name-extinct": {verifC06KeyConnExtinct, []*vs.Op{
